@@ -12,6 +12,8 @@ func init() {
 	register("C11", func(c *core.Ctx, tier string) {
 		truncatedBodyRefused(c, "C11.13")
 		requestRevalidatesTransport(c, "C11.14")
+		handlerReleasedUnderMutex(c, "C11.15")
+		bufferedCloseRechecksWritable(c, "C11.16")
 		payloadNotTruncated(c, "C11.12") // "ok" only after all packets of the payload were processed: none silently dropped by the decoder
 		corsAndContextEffects(c, "C11.11")
 		pollingEffects(c, "C11.10")
